@@ -253,7 +253,11 @@ func (view *View) group(ctx context.Context, scope *ReferenceScope, items []pars
 	for _, item := range items {
 		switch item.(type) {
 		case parser.FieldReference, parser.ColumnNumber:
-			idx, _ := view.Header.SearchIndex(item)
+			idx, err := view.FieldIndex(item)
+			if err != nil {
+				// not noticed before when the table has no records to evaluate the key for
+				return err
+			}
 			view.Header[idx].IsGroupKey = true
 		}
 	}
